@@ -11,7 +11,8 @@ Local Open Scope Z_scope.
 (* Every history of operations - submissions (with replacement, and with the eviction LimitMempoolSize performs),
    test-accepts, reorg steps of any depth (disconnects, connects, resurrection of the disconnected transactions,
    removeForReorg, LimitMempoolSize), clock moves, expiry, trimming, prioritisation - from a state satisfying the invariant
-   runs without tripping an assert of the modelled code and ends in a state satisfying the invariant.  What policy decides
+   runs without tripping an assert of the modelled code (assert(!coin.IsSpent()) in the reorg filter, assert(TestLockPointValidity)
+   after removeForReorg) and ends in a state satisfying the invariant.  What policy decides
    (the `pol` stages, the `rejected` and `evict` sets) is universally quantified: the operations carry arbitrary answers. *)
 Theorem C22_invariant_all_histories :
   forall (U : tx -> Prop),
@@ -26,7 +27,8 @@ Print Assumptions C22_invariant_all_histories.
    of the entries, each to its spender; (4) every input of every entry is an unspent output of the active chain or an output
    of an entry (no dangling child); (5) no entry is a transaction of the chain; (6) totalTxSize / m_total_fee are the sums
    over the entries (in their machine types); (7) every entry is final for the next block (height + 1, median time past of
-   the tip); (8) every coinbase output an entry spends is mature for the next block. *)
+   the tip); (8) every coinbase output an entry spends is mature for the next block; (9) every entry's cached LockPoints refer to
+   a block of the active chain (what removeForReorg asserts) and are satisfied in the next block (CheckSequenceLocksAtTip). *)
 Theorem C22_invariant_clauses :
   forall (U : tx -> Prop) st, Inv U st ->
     let p := s_pool st in let c := s_chain st in
@@ -39,14 +41,17 @@ Theorem C22_invariant_clauses :
     (p_size p = wrapu64 (zsum (map (fun e => t_size (e_tx e)) (p_entries p))) /\
      p_fee p = wrap64 (zsum (map (fun e => t_fee (e_tx e)) (p_entries p)))) /\
     (forall e, In e (p_entries p) -> is_final_tx (to_ltx (e_tx e)) (height c + 1) (mtp_tip c) = true) /\
-    (forall e o h, In e (p_entries p) -> In o (t_ins (e_tx e)) -> utxo c o = Some (h, true) -> COINBASE_MATURITY <= height c + 1 - h).
+    (forall e o h, In e (p_entries p) -> In o (t_ins (e_tx e)) -> utxo c o = Some (h, true) -> COINBASE_MATURITY <= height c + 1 - h) /\
+    (forall e, In e (p_entries p) -> lock_points_valid c (e_lp e) = true /\ lp_height (e_lp e) < height c + 1 /\ lp_time (e_lp e) < mtp_tip c).
 Proof.
-  intros U st [Hj [Hf Hm]]. pose proof (j_pool _ _ _ _ Hj) as K. simpl.
+  intros U st [Hj [Hf [Hm Hl]]]. pose proof (j_pool _ _ _ _ Hj) as K. simpl.
   split; [exact (ok_ids _ K)|]. split; [intros; eapply no_double_spend; eassumption|].
   split; [intros o id; apply next_find_spends; exact K|].
   split.
   - intros e o He Ho. destruct (j_avail _ _ _ _ Hj e o He Ho) as [A|[A|(t & [] & _)]]; [left; exact A|right; exact A].
-  - split; [exact (j_disj _ _ _ _ Hj)|]. split; [split; [exact (ok_size _ K)|exact (ok_fee _ K)]|]. split; [exact Hf|exact Hm].
+  - split; [exact (j_disj _ _ _ _ Hj)|]. split; [split; [exact (ok_size _ K)|exact (ok_fee _ K)]|]. split; [exact Hf|]. split; [exact Hm|].
+    intros e He. destruct (Hl e He) as [L1 L2]. split; [exact L1|].
+    apply (check_seq_locks_iff _ _ (chain_ok_nonempty _ (j_chain _ _ _ _ Hj))). exact L2.
 Qed.
 Print Assumptions C22_invariant_clauses.
 
